@@ -1,50 +1,7 @@
 import Tengo.Proofs.VMRun
+import Tengo.Proofs.VMPost
 namespace Tengo.Model.VM
 open Tengo.Model.Spec Tengo.Model.Opcodes
-
-/-- Partial-correctness triple for the VM monad: every successful result satisfies `P`. -/
-def Post {β} (m : VMM β) (P : β → Prop) : Prop :=
-  ∀ g s v g' s', (m.run g).run s = .ok ((v, g'), s') → P v
-
-theorem Post_pure {β} {P : β → Prop} {v : β} (h : P v) : Post (pure v : VMM β) P := by
-  intro g s v' g' s' hr
-  simp [StateT.run, pure, StateT.pure, Except.pure] at hr
-  obtain ⟨⟨rfl, _⟩, _⟩ := hr
-  exact h
-
-theorem Post_bind {α β} {x : VMM α} {f : α → VMM β} {Q : α → Prop} {P : β → Prop}
-    (hx : Post x Q) (hf : ∀ a, Q a → Post (f a) P) : Post (x >>= f) P := by
-  intro g s v g' s' hr
-  simp only [StateT.run, bind, StateT.bind, Except.bind] at hr
-  split at hr
-  · cases hr
-  · rename_i r heq
-    obtain ⟨⟨a, g1⟩, s1⟩ := r
-    simp only at hr
-    exact hf a (hx g s a g1 s1 heq) g1 s1 v g' s' hr
-
-theorem Post_true {β} (m : VMM β) : Post m (fun _ => True) := fun _ _ _ _ _ _ => trivial
-
-theorem Post_bind' {α β} {x : VMM α} {f : α → VMM β} {P : β → Prop}
-    (hf : ∀ a, Post (f a) P) : Post (x >>= f) P :=
-  Post_bind (Post_true x) (fun a _ => hf a)
-
-theorem Post_hp_throw {β} {P : β → Prop} (e : Err) : Post (hp (throw e) : VMM β) P := by
-  intro g s v g' s' hr
-  simp [hp, Spec.liftM, StateT.run, StateT.lift, throw, throwThe, MonadExceptOf.throw, bind, StateT.bind, Except.bind] at hr
-
-theorem Post_eRt {β} {P : β → Prop} (m : String) : Post (eRt m : VMM β) P := by
-  intro g s v g' s' hr
-  simp [eRt, rtErr, Spec.liftM, StateT.run, StateT.lift, throw, throwThe, MonadExceptOf.throw, bind, StateT.bind, Except.bind] at hr
-
-theorem Post_eUnsup {β} {P : β → Prop} (m : String) : Post (eUnsup m : VMM β) P := by
-  intro g s v g' s' hr
-  simp [eUnsup, unsupported, Spec.liftM, StateT.run, StateT.lift, throw, throwThe, MonadExceptOf.throw, bind, StateT.bind, Except.bind] at hr
-
-theorem Post_goPanic {β} {P : β → Prop} (m : String) : Post (goPanic m : VMM β) P := Post_hp_throw _
-
-theorem Post_mono {β} {m : VMM β} {P Q : β → Prop} (h : Post m P) (hpq : ∀ v, P v → Q v) : Post m Q :=
-  fun g s v g' s' hr => hpq v (h g s v g' s' hr)
 
 /-! ### frames -/
 
@@ -70,67 +27,68 @@ def StepPost (f : Fn) (c : Core) : ExecOut → Prop
 
 theorem finishCompiled_frames (f : Fn) (c : Core) (r : Regs) (numArgs cr k : Nat) (free : List Nat) (cf : Fn)
     (hc : calleeOf f c = .cfn cr) :
-    Post (finishCompiled f (c.cur.ip + 1 + 2) c r numArgs cr k free cf) (StepPost f c) := by
+    PostX (finishCompiled f (c.cur.ip + 1 + 2) c r numArgs cr k free cf) (StepPost f c) := by
   unfold finishCompiled
   split
-  · apply Post_bind'
+  · apply PostX_bind'
     intro r'
-    apply Post_pure
+    apply PostX_pure
     exact FrameStep.same rfl rfl rfl rfl rfl
   · rename_i hnt
     split
-    · exact Post_eRt _
+    · exact PostX_rtE _
     · rename_i hd
-      apply Post_pure
+      apply PostX_pure
       refine FrameStep.push cr rfl ?_ rfl rfl hc (by simpa using hnt)
       simp at hd; omega
 
 
 macro "post_walk" : tactic => `(tactic| repeat' (first
-  | with_reducible apply Post_eRt | with_reducible apply Post_eUnsup | with_reducible apply Post_goPanic
-  | with_reducible apply Post_hp_throw
-  | (with_reducible apply Post_bind'; intro _)
+  | with_reducible apply PostX_rtE | with_reducible apply PostX_unsupE | with_reducible apply PostX_panicE
+  | with_reducible apply PostX_fault
+  | (with_reducible apply PostX_bind'; intro _)
   | split))
 
 theorem execCall_frames (code : Code) (f : Fn) (c : Core) :
-    Post (execCall code f (c.cur.ip + 1) c) (StepPost f c) := by
+    PostX (execCall code f (c.cur.ip + 1) c) (StepPost f c) := by
   unfold execCall
   dsimp only
   post_walk
   all_goals first
     | (apply finishCompiled_frames; assumption)
-    | (apply Post_pure; exact FrameStep.same rfl rfl rfl rfl rfl)
+    | (apply PostX_pure; exact FrameStep.same rfl rfl rfl rfl rfl)
 
 
 theorem execReturn_frames (f : Fn) (ip : Int) (c : Core) (hop : byteAt f (c.cur.ip + 1) = opReturn) :
-    Post (execReturn f ip c) (StepPost f c) := by
+    PostX (execReturn f ip c) (StepPost f c) := by
   unfold execReturn
   dsimp only
   post_walk
-  apply Post_pure
-  exact FrameStep.pop hop (by assumption)
+  all_goals (apply PostX_pure; exact FrameStep.pop hop (by assumption))
 
 /-- **Frame discipline.** One dispatch either stays in the frame, pushes exactly one frame (only when
 the frame array has room and the call is not a self tail call), or pops exactly one. -/
 theorem exec_frames (code : Code) (c : Core) :
-    Post (exec code c) (fun o => ∃ f, code.fn c.cur.fnIdx = some f ∧ StepPost f c o) := by
+    PostX (exec code c) (fun o => ∃ f, code.fn c.cur.fnIdx = some f ∧ StepPost f c o) := by
   unfold exec
   split
   · rename_i f hf
     dsimp only
     split
-    · exact Post_mono (execCall_frames code f c) (fun o h => ⟨f, hf, h⟩)
+    · exact PostX_fault _
     · split
-      · rename_i hret
-        exact Post_mono (execReturn_frames f _ c (by simpa using hret)) (fun o h => ⟨f, hf, h⟩)
+      · exact PostX_mono (execCall_frames code f c) (fun o h => ⟨f, hf, h⟩)
       · split
-        · apply Post_pure
-          exact ⟨f, hf, rfl⟩
-        · apply Post_bind'
-          intro o
-          apply Post_pure
-          exact ⟨f, hf, FrameStep.same rfl rfl rfl rfl rfl⟩
-  · exact Post_eUnsup _
+        · rename_i hret
+          exact PostX_mono (execReturn_frames f _ c (by simpa using hret)) (fun o h => ⟨f, hf, h⟩)
+        · split
+          · apply PostX_pure
+            exact ⟨f, hf, rfl⟩
+          · apply PostX_bind'
+            intro o
+            apply PostX_pure
+            exact ⟨f, hf, FrameStep.same rfl rfl rfl rfl rfl⟩
+  · exact PostX_fault _
 
 /-- Frame depth as the VM counts it (`framesIndex`). -/
 def Core.depth (c : Core) : Nat := c.callers.length + 1
@@ -145,8 +103,8 @@ theorem FrameStep.depth_le {f : Fn} {c c' : Core} (h : FrameStep f c c') (hd : c
 
 /-- **The frame array never overflows**: every dispatch keeps `framesIndex ≤ MaxFrames`. -/
 theorem exec_depth (code : Code) (c : Core) (hd : c.depth ≤ maxFrames) :
-    Post (exec code c) (fun o => match o with | .next c' _ => c'.depth ≤ maxFrames | .halt c' => c'.depth ≤ maxFrames) := by
-  refine Post_mono (exec_frames code c) ?_
+    PostX (exec code c) (fun o => match o with | .next c' _ => c'.depth ≤ maxFrames | .halt c' => c'.depth ≤ maxFrames) := by
+  refine PostX_mono (exec_frames code c) ?_
   rintro o ⟨f, _, h⟩
   cases o with
   | next c' a => exact FrameStep.depth_le h hd
@@ -166,7 +124,7 @@ theorem self_tail_call_reuses_frame (code : Code) (c : Core) (f : Fn) (cr : Nat)
     (hself : c.cur.fnRef = some cr)
     (hnext : byteAt f (c.cur.ip + 1 + 2 + 1) = opReturn ∨
              (byteAt f (c.cur.ip + 1 + 2 + 1) = opPop ∧ byteAt f (c.cur.ip + 1 + 2 + 2) = opReturn)) :
-    Post (exec code c) (fun o => ∀ c' a, o = .next c' a →
+    PostX (exec code c) (fun o => ∀ c' a, o = .next c' a →
       c'.callers = c.callers ∧ c'.cur.bp = c.cur.bp ∧ c'.cur.fnRef = c.cur.fnRef) := by
   have htail : isSelfTail f c.cur cr (c.cur.ip + 1 + 2) = true := by
     unfold isSelfTail
@@ -177,8 +135,10 @@ theorem self_tail_call_reuses_frame (code : Code) (c : Core) (f : Fn) (cr : Nat)
   unfold exec
   rw [hf]
   dsimp only
+  split
+  · exact PostX_fault _
   rw [if_pos (by simp [hop])]
-  refine Post_mono (execCall_frames code f c) ?_
+  refine PostX_mono (execCall_frames code f c) ?_
   intro o h c' a ho
   subst ho
   simp only [StepPost] at h
@@ -195,7 +155,7 @@ theorem self_tail_call_reuses_frame (code : Code) (c : Core) (f : Fn) (cr : Nat)
 
 
 def Outcome.cfg : Outcome → Cfg
-  | .halted c | .failed _ c | .limit c | .outOfFuel c => c
+  | .halted c | .failed _ c | .fault _ c | .limit c | .outOfFuel c => c
 
 /-- **Every configuration a run reaches respects the frame limit** (take the fuel to be the number
 of dispatches up to that configuration): deep recursion ends in the stack-overflow error of
@@ -211,14 +171,15 @@ theorem run_depth (code : Code) (keep : Nat) :
     rw [run_succ]
     split
     · simpa [Outcome.cfg] using h
+    · simpa [Outcome.cfg] using h
     · rename_i c g hh heq
-      have := exec_depth code cfg.core h _ _ _ _ _ heq
+      have := exec_depth code cfg.core h _ _ _ _ _ heq _ rfl
       simpa [Outcome.cfg] using this
     · rename_i c g hh heq
-      have := exec_depth code cfg.core h _ _ _ _ _ heq
+      have := exec_depth code cfg.core h _ _ _ _ _ heq _ rfl
       exact ih allocs ⟨c, g, hh⟩ _ this
     · rename_i c g hh heq
-      have := exec_depth code cfg.core h _ _ _ _ _ heq
+      have := exec_depth code cfg.core h _ _ _ _ _ heq _ rfl
       split
       · simpa [Outcome.cfg] using h
       · exact ih (allocs - 1) ⟨c, g, hh⟩ _ this
